@@ -251,6 +251,13 @@ void MEDDLY::copy_MT::_compute(int L, unsigned in,
         ? MXD_levels::unprimedOfLevel(argF->getNodeLevel(A))
         : argF->getNodeLevel(A);
 
+    //
+    // The relation-node code below starts from an unprimed level, and the
+    // compute table holds unprimed-level results. If another operation
+    // hands us a primed node in a primed context, copy that node directly.
+    //
+    const bool primed_entry = can_use_relation_nodes && (Alevel<0);
+
 #ifdef TRACE
     out << "copy_MT::_compute(" << A << ")\n";
 #endif
@@ -261,7 +268,7 @@ void MEDDLY::copy_MT::_compute(int L, unsigned in,
     ct_vector key(ct->getKeySize());
     ct_vector res(ct->getResultSize());
     key[0].setN(A);
-    if (ct->findCT(key, res)) {
+    if (!primed_entry && ct->findCT(key, res)) {
         //
         // compute table 'hit'
         //
@@ -287,7 +294,7 @@ void MEDDLY::copy_MT::_compute(int L, unsigned in,
         //
 
         unpacked_node* Cu = nullptr;
-        if (can_use_relation_nodes) {
+        if (can_use_relation_nodes && !primed_entry) {
             //
             // Use relation nodes for relations, so we can copy
             // any implicit representation to MxDs
@@ -437,7 +444,7 @@ void MEDDLY::copy_MT::_compute(int L, unsigned in,
             res[0].set(cv);
             res[1].setN(cp);
         }
-        ct->addCT(key, res);
+        if (!primed_entry) ct->addCT(key, res);
 
 
         //
